@@ -17,7 +17,7 @@ func init() {
 		Prop:   "C15",
 		Run:    run,
 		Replay: replay,
-		Rule: "E1 over placements x prefix usages: modules a (prefix table: p->n1, q->n2) and b (p->n2, r->n1, a->a) are chosen so that the same prefix means different namespaces in the two modules and each module knows a prefix the other does not; a must, a when or a leafref path is placed directly in a, in a grouping of a used in a, in a grouping of a used from b, in an augment written in b into a's tree, in a typedef of a used from b (leafref), in a refine/augment inside b's uses of a's grouping, as a when on a uses of a foreign / local grouping or on an augment that contains a foreign uses, and in a deviation written in b; the expression is one of 23 (must, when) or 20 (leafref path) forms (prefix p / q / r / unknown, unprefixed, two prefixes, syntactically invalid forms from C04's reject set). " +
+		Rule: "E1 over placements x prefix usages: modules a (prefix table: p->n1, q->n2) and b (p->n2, r->n1, a->a) are chosen so that the same prefix means different namespaces in the two modules and each module knows a prefix the other does not; a must, a when or a leafref path is placed directly in a, in a grouping of a used in a, in a grouping of a used from b, in an augment written in b into a's tree, in a typedef of a used from b (leafref), in a refine/augment inside b's uses of a's grouping, as a when on a uses of a foreign / local grouping or on an augment that contains a foreign uses, and in a deviation written in b; the expression is one of 26 (must, when) or 20 (leafref path) forms (prefix p / q / r / unknown, unprefixed, two prefixes, syntactically invalid forms from C04's reject set). " +
 			"Expected verdict: compiles iff the expression is syntactically valid and every prefix is known in the module where the statement is textually written; the error must name that module's file. On success every Name-Push of the compiled machine must carry the namespace the textual module's import table gives (unprefixed: the namespace of the module the node ends up in) and GetExpr() must be the source text. Non-trivial = every case.",
 		Bound: map[string]string{"quick": "10 placements x 4 statement kinds (must, a second must after a valid one, when, leafref path) x 12 expressions; 4 placements of a when written on a uses / augment x 12 expressions; 4 placements x 9 kind pairs x 5x4 expression pairs x 2 orders with a second statement written in b itself", "thorough": "same"},
 		Assumptions: []string{"for statements added by a deviation the namespace of unprefixed names is UNSPECIFIED (the node stays in the target module, the text is in the deviating module)"},
@@ -51,6 +51,9 @@ var exprs = []expr{
 	{"../q:x/p:9 = 'v'", false, nil, nil},
 	// unbalanced / dangling forms
 	{"p:x = 'v", false, nil, nil},
+	{"p:x = '", false, nil, nil},
+	{"p:x != \"", false, nil, nil},
+	{"'", false, nil, nil},
 	{"(p:x = 'v'", false, nil, nil},
 	{"p:x = 'v')", false, nil, nil},
 	{"p:x p:y", false, nil, nil},
